@@ -19,6 +19,12 @@ impl PathBuf {
     pub fn to_path_buf(&self) -> (r: PathBuf) ensures r@ == self@ { unimplemented!() }
     #[verifier::external_body]
     pub fn clone(&self) -> (r: PathBuf) ensures r@ == self@ { unimplemented!() }
+    /// capacity only
+    #[verifier::external_body]
+    pub fn reserve(&mut self, additional: usize) ensures final(self)@ == old(self)@ { unimplemented!() }
+    pub uninterp spec fn is_abs(&self) -> bool;
+    #[verifier::external_body]
+    pub fn is_absolute(&self) -> (r: bool) ensures r == self.is_abs() { unimplemented!() }
     /// PathBuf::push of ONE normal component (what the code passes): appended at the end
     #[verifier::external_body]
     pub fn push(&mut self, part: VOsStr) ensures final(self)@ == old(self)@.push(Component::Normal(part)) { unimplemented!() }
@@ -55,7 +61,7 @@ impl From<std::io::Error> for MlarError {
 #[verifier::external_body]
 pub fn vfs_create_dir_all(p: &PathBuf) -> (r: std::io::Result<()>) { unimplemented!() }
 #[verifier::external_body]
-pub fn vfs_canonicalize(p: &PathBuf) -> (r: std::io::Result<PathBuf>) ensures r is Ok ==> r->Ok_0@ == canon(p@) { unimplemented!() }
+pub fn vfs_canonicalize(p: &PathBuf) -> (r: std::io::Result<PathBuf>) ensures r is Ok ==> r->Ok_0@ == canon(p@) && r->Ok_0.is_abs() { unimplemented!() }
 /// File::create: the CONTRACT the extractor must respect -- only beneath the output directory
 #[verifier::external_body]
 pub fn vfs_file_create(p: &PathBuf) -> (r: std::io::Result<File>)
